@@ -122,7 +122,7 @@ func (vc *VC) runLemma(lm *Lemma, sp *ssa.Package) {
 			}
 			vars[st.Names[0]] = fr.freshVal("lemma."+st.Names[0], t)
 		case "requires":
-			t, err := fr.evalSpecBool(st.Clause.Expr, mkEnv())
+			t, err := fr.evalSpecAssume(st.Clause.Expr, mkEnv())
 			if err != nil {
 				vc.specError(fr, st.Clause, err)
 				continue
